@@ -240,13 +240,21 @@ func (g *srcGen) vocab() string { return vocabulary[g.r.Intn(len(vocabulary))] }
 func (g *srcGen) seed() (string, string) {
 	i := g.r.Intn(len(g.co.seeds))
 	s := g.co.seeds[i]
-	// large files: work on a window of whole lines most of the time
-	if len(s) > 3000 && g.r.Intn(4) != 0 {
-		lines := strings.SplitAfter(s, "\n")
-		n := 5 + g.r.Intn(60)
-		if n < len(lines) {
-			st := g.r.Intn(len(lines) - n)
-			s = strings.Join(lines[st:st+n], "")
+	// large files: work on a window most of the time - a run of paragraphs
+	// (the test files separate their self-contained do...end blocks with blank
+	// lines), sometimes a run of raw lines
+	if len(s) > 1500 && g.r.Intn(5) != 0 {
+		if paras := strings.Split(s, "\n\n"); len(paras) > 3 && g.r.Intn(4) != 0 {
+			n := 1 + g.r.Intn(4)
+			st := g.r.Intn(len(paras) - n + 1)
+			s = strings.Join(paras[st:st+n], "\n\n") + "\n"
+		} else {
+			lines := strings.SplitAfter(s, "\n")
+			n := 5 + g.r.Intn(60)
+			if n < len(lines) {
+				st := g.r.Intn(len(lines) - n)
+				s = strings.Join(lines[st:st+n], "")
+			}
 		}
 	}
 	return s, g.co.names[i]
@@ -400,6 +408,103 @@ func (g *srcGen) mutateTokens(s string) (string, string) {
 	return strings.Join(toks, ""), kind
 }
 
+// sameClass returns a token of the same lexical class as t (numeral, string,
+// name, operator), so that the mutant is likely to stay syntactically valid
+// and reach the compiler back end and the VM.
+func (g *srcGen) sameClass(t string) string {
+	pick := func(xs ...string) string { return xs[g.r.Intn(len(xs))] }
+	switch {
+	case t == "":
+		return t
+	case t[0] >= '0' && t[0] <= '9':
+		return pick("0", "1", "-1", "255", "256", "65536", "2147483648", "9223372036854775807", "9223372036854775808", "0x7fffffffffffffff",
+			"0xffffffffffffffff", "1e308", "1e309", "0.5", "5e-324", "0x1p-1074", "1e15", "2^53", "(0/0)", "(1/0)", "(-1/0)", "math.mininteger", "-0.0", "3", "10", "100", "1000", "100000")
+	case t[0] == '"' || t[0] == '\'':
+		return pick(`""`, `"a"`, `"%"`, `"%b"`, `"["`, `"(()"`, `"\0"`, `"\xff\xfe"`, `"10"`, `"0x10"`, `" 1 "`, `"%s%d"`, `"%5.2f"`, `"^(a*)*$"`, `"__index"`, `"__gc"`, `"__close"`, `"k"`, `"n"`,
+			`("x"):rep(1000)`, `("x"):rep(100000)`, `"\u{7FFFFFFF}"`, `[[
+]]`, `"abc"`)
+	case t == "true" || t == "false" || t == "nil":
+		return pick("true", "false", "nil", "0", `""`, "{}")
+	case t == "and" || t == "or":
+		return pick("and", "or")
+	case t == "break" || t == "return":
+		return pick("break", "return", "do return end", "goto continue")
+	case t == "pairs" || t == "ipairs" || t == "next":
+		return pick("pairs", "ipairs", "next", "coroutine.wrap", "string.gmatch")
+	case t == "pcall" || t == "xpcall" || t == "print" || t == "error" || t == "assert" || t == "select" || t == "tostring" || t == "type":
+		return pick("pcall", "print", "error", "assert", "select", "tostring", "type", "coroutine.wrap", "coroutine.resume", "setmetatable", "rawset", "string.rep", "table.unpack", "load", "collectgarbage", "runtime.callcontext")
+	case (t[0] >= 'a' && t[0] <= 'z' || t[0] >= 'A' && t[0] <= 'Z' || t[0] == '_') && !isKeyword(t):
+		return pick("x", "t", "f", "a", "b", "i", "s", "self", "_ENV", "_G", "string", "table", "math", "coroutine", "print", t+"1", "nil")
+	}
+	for _, cl := range [][]string{
+		{"+", "-", "*", "/", "//", "%", "^", "..", "&", "|", "~", "<<", ">>", "==", "~=", "<", "<=", ">", ">=", "and", "or"},
+		{"#", "-", "~", "not"},
+		{".", ":"},
+		{",", ";"},
+	} {
+		for _, o := range cl {
+			if o == t {
+				return pick(cl...)
+			}
+		}
+	}
+	return t
+}
+
+var keywords = map[string]bool{"and": true, "break": true, "do": true, "else": true, "elseif": true, "end": true, "false": true, "for": true, "function": true, "goto": true,
+	"if": true, "in": true, "local": true, "nil": true, "not": true, "or": true, "repeat": true, "return": true, "then": true, "true": true, "until": true, "while": true}
+
+func isKeyword(t string) bool { return keywords[t] }
+
+// mutateLines works on whole lines: the repository's test files are mostly one
+// statement per line, so the mutant often still parses.
+func (g *srcGen) mutateLines(s string) (string, string) {
+	lines := strings.SplitAfter(s, "\n")
+	n := len(lines)
+	if n < 3 {
+		return g.mutateTokens(s)
+	}
+	switch g.r.Intn(5) {
+	case 0:
+		i := g.r.Intn(n)
+		return strings.Join(append(lines[:i:i], lines[i+1:]...), ""), "line-delete"
+	case 1:
+		i := g.r.Intn(n)
+		k := 1 + g.r.Intn(50)
+		return strings.Join(lines[:i+1], "") + strings.Repeat(lines[i], k) + strings.Join(lines[i+1:], ""), "line-duplicate"
+	case 2:
+		i, j := g.r.Intn(n), g.r.Intn(n)
+		lines[i], lines[j] = lines[j], lines[i]
+		return strings.Join(lines, ""), "line-swap"
+	case 3:
+		o, _ := g.seed()
+		ol := strings.SplitAfter(o, "\n")
+		a := g.r.Intn(len(ol))
+		b := a + 1 + g.r.Intn(8)
+		if b > len(ol) {
+			b = len(ol)
+		}
+		i := g.r.Intn(n)
+		return strings.Join(lines[:i], "") + strings.Join(ol[a:b], "") + "\n" + strings.Join(lines[i:], ""), "line-splice"
+	default:
+		// wrap a run of lines into a construct
+		i := g.r.Intn(n)
+		j := i + 1 + g.r.Intn(6)
+		if j > n {
+			j = n
+		}
+		body := strings.Join(lines[i:j], "")
+		wrap := [][2]string{
+			{"do\n", "\nend\n"}, {"for _ = 1, 3 do\n", "\nend\n"}, {"while true do\n", "\nbreak end\n"}, {"repeat\n", "\nuntil true\n"},
+			{"pcall(function(...)\n", "\nend)\n"}, {"coroutine.wrap(function(...)\n", "\nend)()\n"}, {"if x then\n", "\nelse\nend\n"},
+			{"local function ff(...)\n", "\nend ff() ff(ff)\n"}, {"runtime.callcontext({kill={cpu=5000, memory=100000}}, function()\n", "\nend)\n"},
+			{"do local cc <close> = setmetatable({}, {__close = function()\n", "\nend}) end\n"}, {"setmetatable({}, {__gc = function()\n", "\nend}) collectgarbage()\n"},
+			{"for i = 1, 300 do\n", "\nend\n"},
+		}[g.r.Intn(12)]
+		return strings.Join(lines[:i], "") + wrap[0] + body + wrap[1] + strings.Join(lines[j:], ""), "line-wrap"
+	}
+}
+
 func (g *srcGen) next() (src, kind string) {
 	switch p := g.r.Intn(100); {
 	case p < 4:
@@ -431,12 +536,30 @@ func (g *srcGen) next() (src, kind string) {
 	}
 	s, _ := g.seed()
 	var kinds []string
-	for k := 1 + g.r.Intn(4); k > 0; k-- {
+	nm := 1
+	if g.r.Intn(3) == 0 {
+		nm = 2 + g.r.Intn(3)
+	}
+	for k := nm; k > 0; k-- {
 		var kd string
-		if g.r.Intn(2) == 0 {
+		switch g.r.Intn(10) {
+		case 0, 1:
 			s, kd = g.mutateBytes(s)
-		} else {
+		case 2, 3, 4:
 			s, kd = g.mutateTokens(s)
+		case 5, 6:
+			s, kd = g.mutateLines(s)
+		default:
+			// class-preserving replacement of 1-3 tokens
+			toks := tokenize(s)
+			for r := 1 + g.r.Intn(3); r > 0 && len(toks) > 0; r-- {
+				i := g.r.Intn(len(toks))
+				for tries := 0; tries < 8 && (isBlank(toks[i]) || strings.HasPrefix(toks[i], "--")); tries++ {
+					i = g.r.Intn(len(toks))
+				}
+				toks[i] = g.sameClass(toks[i])
+			}
+			s, kd = strings.Join(toks, ""), "tok-replace-same-class"
 		}
 		kinds = append(kinds, kd)
 	}
@@ -455,6 +578,9 @@ func runSource(x *exec) {
 	}
 	g := &srcGen{co: co, r: c.Rand("source")}
 	total := x.slice(c.Pick(20000, 1000000))
+	if x.variant != "plain" && c.Tier == vp.Thorough {
+		total /= 4 // the sanitizer builds are 3-10x slower; a quarter of the inputs keeps the tier within its time budget
+	}
 	n := total / c.NB
 	for i := 0; i < n; i++ {
 		src, kind := g.next()
@@ -502,7 +628,7 @@ func (x *exec) sourceCase(id, kind, src string, viaLoad bool) {
 
 func (x *exec) judgeSource(id, kind, src string, res result) {
 	c := x.c
-	c.Feature("kind/"+kind, 1)
+	c.Feature("kind/"+kind+"/"+res.kind, 1)
 	c.Feature("outcome/"+res.phase+"-"+res.kind, 1)
 	switch res.kind {
 	case kPanic:
